@@ -3,6 +3,7 @@
 package x86
 
 import (
+	"github.com/mmcloughlin/avo/ir"
 	"github.com/mmcloughlin/avo/operand"
 	"github.com/mmcloughlin/avo/reg"
 )
@@ -87,4 +88,38 @@ func VerifImplReg(t uint8) reg.Register {
 		return implreg(t).Register()
 	}
 	return nil
+}
+
+// VerifBuild builds an instruction exactly as the generated constructors do:
+// build(opcode.Forms(), suffixes, ops). Unknown opcode or suffix names yield
+// (nil, nil).
+func VerifBuild(opcode string, suffixes []string, ops []operand.Op) (*ir.Instruction, error) {
+	var o opc
+	for c := opcNone + 1; c < opcmax; c++ {
+		if c.String() == opcode {
+			o = c
+			break
+		}
+	}
+	if o == opcNone {
+		return nil, nil
+	}
+	var ss sffxs
+	if len(suffixes) > maxsuffixes {
+		return nil, nil
+	}
+	for i, name := range suffixes {
+		found := false
+		for s := sffxNone + 1; s < sffxmax; s++ {
+			if (sffxs{s}).Strings()[0] == name {
+				ss[i] = s
+				found = true
+				break
+			}
+		}
+		if !found {
+			return nil, nil
+		}
+	}
+	return build(o.Forms(), ss, ops)
 }
